@@ -187,6 +187,12 @@ func runCheck(o *options) int {
 		}
 	}
 	targets := sweepTargets(p, db, o.prop)
+	sweepSet := map[*ssa.Function]bool{}
+	for _, fn := range targets {
+		if fn.Parent() == nil {
+			sweepSet[fn] = true
+		}
+	}
 	// top-level functions first, closures afterwards (only if their call sites were not reached
 	// through an inlined direct call in the parent)
 	var closures []*ssa.Function
@@ -199,7 +205,7 @@ func runCheck(o *options) int {
 			continue
 		}
 		fn := fn
-		gen(shortFn(fn), func() *Unit { return sweepFunc(p, db, fn, o.prop) })
+		gen(shortFn(fn), func() *Unit { return sweepFunc(p, db, fn, o.prop, sweepSet) })
 	}
 	for _, u := range units {
 		for _, c := range u.Callsites {
@@ -211,7 +217,7 @@ func runCheck(o *options) int {
 		if closureCovered(p, db, fn, o.prop, covered) {
 			continue
 		}
-		gen(shortFn(fn), func() *Unit { return sweepFunc(p, db, fn, o.prop) })
+		gen(shortFn(fn), func() *Unit { return sweepFunc(p, db, fn, o.prop, sweepSet) })
 	}
 	tGen := time.Since(t0).Seconds() - tLoad
 
